@@ -186,6 +186,8 @@ def call_ext(interp, name: str, args: list, kwargs: dict) -> Any:
     if name.split(".")[0] in ("typing", "typing_extensions"):
         return ExtRef("typing.Any")
     interp.emit("ext", name=name, args=args, kwargs=kwargs)
+    if interp.strict and name not in interp.allow_unknown:
+        raise AnalysisError(f"no model for external callable {name} (called at {interp.site[0]}:{interp.site[1]} in {interp.site[2]})")
     return fresh_unknown(f"{name}()")
 
 
@@ -608,6 +610,16 @@ def stream_root(inp: ExtObj) -> ExtObj:
     return inp
 
 
+def _tuple_new(interp, args, kwargs):
+    cls, items = args[0], (args[1] if len(args) > 1 else ())
+    vals = tuple(interp.unpack_values(items))
+    if isinstance(cls, ClassInfo):
+        o = Obj(cls, {}, vals)
+        o.shared = interp.init_depth > 0
+        return o
+    return vals
+
+
 def _buffered_reader(interp, args, kwargs):
     raw = args[0]
     interp.emit("wrap", raw=raw)
@@ -673,6 +685,8 @@ _EXT = {
     "google.protobuf.proto.parse": _parse,
     "google.protobuf.proto.serialize_length_prefixed": _serialize_length_prefixed,
     "io.BufferedReader": _buffered_reader,
+    "builtins.tuple.__new__": _tuple_new,
+    "mimetypes.add_type": lambda i, a, k: i.emit("ext_write", target="mimetypes.add_type", key=a[1] if len(a) > 1 else None, value=a[0] if a else None),
 }
 
 EXT_CONSTANTS = {
